@@ -1,0 +1,29 @@
+//go:build verif
+
+package tls
+
+// Accessors used only by the external verification harness (build tag
+// "verif"). They are not compiled into normal builds.
+
+// VerifSessionTicket returns a copy of the ticket stored in a cached client
+// session.
+func VerifSessionTicket(s *ClientSessionState) []byte {
+	if s == nil {
+		return nil
+	}
+	return append([]byte(nil), s.sessionTicket...)
+}
+
+// VerifSessionWithTicket returns a copy of s whose ticket is replaced by
+// ticket. s itself is not modified.
+func VerifSessionWithTicket(s *ClientSessionState, ticket []byte) *ClientSessionState {
+	c := *s
+	c.sessionTicket = append([]byte(nil), ticket...)
+	return &c
+}
+
+// VerifSessionParams returns the protocol version and cipher suite recorded in
+// a cached client session.
+func VerifSessionParams(s *ClientSessionState) (vers, cipherSuite uint16) {
+	return s.vers, s.cipherSuite
+}
